@@ -430,7 +430,7 @@ func init() {
 	core.Register(&core.Prop{
 		ID:    "C02",
 		Level: "exploration",
-		Rule: "case = (endpoint config, write program) drawn from the seeded PRNG; the transport write log is decoded by the independent decoder; " +
+		Rule: "case = (endpoint config, write program) drawn from the seeded PRNG; the transport write log is decoded by the independent decoder; every tenth case is a deadline history instead: a three-part message during which the write deadline in force expires (before a middle part, before Close, or before the implicit close by the next message) and is renewed, over a transport that does not enforce deadlines; " +
 			"distinct = hash of the case descriptor; non-trivial = the log holds more frames than API messages (fragmentation) or a compressed message or a boundary-sized message",
 		Variants: core.PlainOnly,
 		Cases: func(tier, variant string) int {
@@ -440,7 +440,7 @@ func init() {
 			return 14000
 		},
 		Run:      runC02,
-		Required: []string{"frames_decoded", "mask_keys_checked", "oversize_control_payloads_streamed_into_a_writer"},
+		Required: []string{"frames_decoded", "mask_keys_checked", "oversize_control_payloads_streamed_into_a_writer", "expired_deadline_histories"},
 		Assumptions: []string{
 			"the mask-key source is observed through VerifMaskRand/VerifSetMaskRand: identity with crypto/rand.Reader is asserted once, then a forwarding tap records every byte drawn; the quality of crypto/rand itself is trusted",
 			"compressed payloads are inflated with the standard library inflater (not library code)",
@@ -455,6 +455,10 @@ func runC02(ctx *core.Ctx, out *core.Out) {
 		return
 	}
 	r := ctx.R
+	if ctx.Idx%10 == 7 {
+		c02ExpiredDeadline(ctx, out)
+		return
+	}
 	rtInvalid = true // C02 only: invalid requests must leave no trace on the wire
 	cfg, prog := genRT(r, ctx.Thorough())
 	via := ctx.Idx%5 == 4
@@ -713,5 +717,114 @@ func c01Many(ctx *core.Ctx, out *core.Out) {
 				return
 			}
 		}
+	}
+}
+
+// c02ExpiredDeadline: the write deadline in force changes between the frames of one message -
+// it expires (an instant long past is set) before a middle part, before the final Close, or
+// while the writer is left open for the implicit close, and a fresh one is set afterwards. The
+// transport neither implements nor enforces deadlines, so nothing fails on its side. Whatever
+// the library makes of the expired deadline, what reaches the wire must stay a well-formed
+// stream whose complete messages are exactly what the application wrote.
+func c02ExpiredDeadline(ctx *core.Ctx, out *core.Out) {
+	r := ctx.R
+	cfg := Cfg{Server: r.Bool(), RB: 256, WB: []int{64, 200, 1024, 4096}[r.Intn(4)], Comp: r.Bool()}
+	nc := xport.New(nil)
+	c := newConn(nc, cfg, nil, 0)
+	if cfg.Comp {
+		c.EnableWriteCompression(r.Bool())
+	}
+	far := func(i int) time.Time { return time.Unix(4000000000, 0).Add(time.Duration(i) * time.Hour) }
+	past := time.Unix(1000000, 0)
+	where := r.Intn(3)
+	typ := r.Range(1, 2)
+	var parts [][]byte
+	var whole []byte
+	for i := 0; i < 3; i++ {
+		p := r.Bytes(r.Range(cfg.WB, 3*cfg.WB))
+		parts = append(parts, p)
+		whole = append(whole, p...)
+	}
+	small := append([]byte("second:"), r.Bytes(r.Range(0, 40))...)
+	last := append([]byte("third:"), r.Bytes(r.Range(0, 300))...)
+	var calls []string
+	failed := -1
+	note := func(name string, err error) {
+		calls = append(calls, name+" -> "+errStr(err))
+		if err != nil && failed < 0 {
+			failed = len(calls) - 1
+		}
+	}
+	c.SetWriteDeadline(far(1))
+	w, err := c.NextWriter(typ)
+	note("NextWriter", err)
+	if err != nil {
+		out.Violate("C02:setup", "NextWriter on a fresh connection failed: "+err.Error(), nil)
+		return
+	}
+	_, err = w.Write(parts[0])
+	note("Write part 0", err)
+	if where == 0 {
+		c.SetWriteDeadline(past)
+	}
+	_, err = w.Write(parts[1])
+	note("Write part 1", err)
+	if where == 0 {
+		c.SetWriteDeadline(far(2))
+	}
+	_, err = w.Write(parts[2])
+	note("Write part 2", err)
+	expect := [][]byte{whole}
+	switch where {
+	case 1:
+		c.SetWriteDeadline(past)
+		note("Close", w.Close())
+	case 2:
+		c.SetWriteDeadline(past)
+		note("WriteMessage second (closes the open writer)", c.WriteMessage(2, small))
+		expect = append(expect, small)
+	default:
+		note("Close", w.Close())
+	}
+	c.SetWriteDeadline(far(3))
+	note("WriteMessage third", c.WriteMessage(1, last))
+	expect = append(expect, last)
+	note("WriteControl ping", c.WriteControl(9, []byte("p"), far(4)))
+	out.Count("expired_deadline_histories", 1)
+	desc := map[string]interface{}{"cfg": cfg, "expired_deadline_in_force": []string{"during the second of three Writes", "during Close", "while the next message closes the open writer"}[where], "calls": calls}
+	out.Eval(fmt.Sprintf("expired|%v|%d|%d", cfg, where, typ), true)
+	frames, rest, derr := wire.Decode(nc.Written())
+	out.Count("frames_decoded", int64(len(frames)))
+	if derr != nil || len(rest) != 0 {
+		out.Violate("C02:undecodable", fmt.Sprintf("write log does not decode (err=%v, %d trailing bytes)", derr, len(rest)), desc)
+		return
+	}
+	msgs, open, v := wire.Validate(frames, !cfg.Server, cfg.Comp)
+	desc["frames"] = framesDesc(frames, 16)
+	if v != nil {
+		out.Violate("C02:"+v.Kind, "ill-formed stream after a write deadline expired between frames: "+v.Error(), desc)
+		return
+	}
+	var data []wire.Msg
+	for _, m := range msgs {
+		if m.Op == 1 || m.Op == 2 {
+			data = append(data, m)
+		}
+	}
+	// complete data messages on the wire are a prefix-preserving subsequence of what was written
+	ei := 0
+	for i, m := range data {
+		for ei < len(expect) && !bytes.Equal(m.Data, expect[ei]) {
+			ei++
+		}
+		if ei == len(expect) {
+			out.Violate("C02:payload-mismatch", fmt.Sprintf("complete data message %d on the wire (%d bytes) is none of the messages the application wrote (a frame is missing or misplaced)", i, len(m.Data)), desc)
+			return
+		}
+		ei++
+	}
+	if failed < 0 && (len(data) != len(expect) || open != nil) {
+		out.Violate("C02:message-count", fmt.Sprintf("every call succeeded but the wire has %d complete data messages, want %d (unfinished=%v)", len(data), len(expect), open != nil), desc)
+		return
 	}
 }
